@@ -362,6 +362,7 @@ type stepScenario struct {
 	Sched   SchedCfg  `json:"sched"`
 	Dag     *DagSpec  `json:"dag"`
 	StopAt  int       `json:"stopAtStep,omitempty"`
+	StopOnRetrySetup bool `json:"stopOnRetrySetup,omitempty"` // alternatively: the stop is released when the agent opens the log file of a step's second attempt (the retry is being set up)
 	StopAtMs int      `json:"stopAtMs,omitempty"` // alternatively: the stop is issued at this fake time (lands inside sleeps: launch delay, retry and repeat intervals, the 100 ms pause)
 	StopVia string    `json:"stopVia,omitempty"`
 	SlowHistory bool  `json:"slowHistory,omitempty"`
@@ -470,7 +471,11 @@ func stepsim(t *testing.T, tp *simrt.Tape, opts RunOpts) *Outcome {
 			}
 		}
 	}
-	if sc.StopAt > 0 && chance(tp, 1, 2) {
+	if sc.Variant == "log" && sc.StopAt > 0 && chance(tp, 1, 3) {
+		sc.StopOnRetrySetup = true
+		sc.StopAt = 1 << 30
+	}
+	if sc.StopAt > 0 && !sc.StopOnRetrySetup && chance(tp, 1, 2) {
 		// scheduler steps are dense while something happens and sparse while everything sleeps; a stop
 		// drawn by fake time instead lands inside the sleeps
 		sc.StopAtMs = pick(tp, 30, 99, 101, 180, 450, 950, 1050, 1600, 2100, 3300, 5200)
@@ -545,6 +550,24 @@ func stepsim(t *testing.T, tp *simrt.Tape, opts RunOpts) *Outcome {
 			}
 			op.Proc.W.CountFault("slow_op")
 			return simrt.Fault{Kind: simrt.FSlow, Delay: time.Duration(pick(tp, 120, 250, 400)) * time.Millisecond}
+		}
+	}
+	if sc.StopOnRetrySetup {
+		logOpens := map[string]int{}
+		cfg.OnOp = func(op *simrt.OpInfo) {
+			if stopReleased || op.Kind != "open" || !strings.HasPrefix(op.Path, logsDir+"/") || !strings.HasSuffix(op.Path, ".log") {
+				return
+			}
+			base := path.Base(op.Path)
+			name := base[:strings.IndexByte(base, '.')]
+			logOpens[name]++
+			if logOpens[name] == 2 {
+				stopReleased = true
+				op.Proc.W.Probe("stop_released_at_retry_setup")
+				simrt.Big.Lock()
+				stopQ.Broadcast()
+				simrt.Big.Unlock()
+			}
 		}
 	}
 	var ioTouched map[string]bool
